@@ -59,7 +59,8 @@ type Violation struct {
 	Harness   string      `json:"harness"`
 	AssertID  string      `json:"assert_id"`
 	Msg       string      `json:"msg"`
-	Kind      string      `json:"kind"` // assert | panic | lock-held | unwind | deadlock
+	Kind      string      `json:"kind"` // assert | panic | lock-held | unwind | deadlock | race
+	RaceSig   string      `json:"race_sig,omitempty"`
 	Tape      []TapeEntry `json:"tape"`
 	Decisions string      `json:"decisions"`
 	Where     string      `json:"where"`
@@ -76,6 +77,8 @@ type PathStats struct {
 	GoStmts    int
 	Concretize int
 	Fallbacks  int
+	RaceAccesses int
+	RaceShared   int
 }
 
 // Path is the state of one execution.
@@ -108,6 +111,7 @@ type Path struct {
 	unwindBound int
 	stepBudget  int64
 
+	race       *raceRec
 	knownPreds []knownPred
 	sideTable  map[string]interface{} // per-path model state (json side table, once, waitgroups …)
 	trace      []string
